@@ -26,7 +26,26 @@ ASSUMPTIONS = [
     "true OS-level interleavings inside dask's thread pool are sampled, not controlled; execution orders of the delayed graph are harness-owned",
     "test folds hold at least 2 points with non-constant data (R2 is undefined otherwise)",
 ]
-SCORERS = [None, "r2", "neg_mean_squared_error", "neg_root_mean_squared_error", "neg_mean_absolute_error"]
+SCORERS = [None, "r2", "neg_mean_squared_error", "neg_root_mean_squared_error", "neg_mean_absolute_error", "callable:mae", "make_scorer:mae"]
+
+
+def _callable_mae(estimator, X, y, sample_weight=None):
+    """a plain function with scikit-learn's scorer signature"""
+    p = np.asarray(estimator.predict(X), dtype="float64").ravel()
+    y = np.asarray(y, dtype="float64").ravel()
+    w = np.ones_like(y) if sample_weight is None else np.asarray(sample_weight, dtype="float64").ravel()
+    return -float(np.sum(w * np.abs(y - p)) / np.sum(w))
+
+
+def scoring_object(name):
+    """what is handed to verde for a scoring entry of a case (names stay names; the two ':mae' entries are scorer objects)"""
+    if name == "callable:mae":
+        return _callable_mae
+    if name == "make_scorer:mae":
+        from sklearn.metrics import make_scorer, mean_absolute_error
+
+        return make_scorer(mean_absolute_error, greater_is_better=False)
+    return name
 ESTIMATORS = ["trend", "spline", "knn", "vector", "chain", "vector3"]
 NCOMP = {"vector": 2, "vector3": 3}
 
@@ -56,7 +75,7 @@ def metric(name, y, p, w):
         return -mse
     if name == "neg_root_mean_squared_error":
         return -np.sqrt(mse)
-    if name == "neg_mean_absolute_error":
+    if name in ("neg_mean_absolute_error", "callable:mae", "make_scorer:mae"):
         return -np.sum(w * np.abs(y - p)) / np.sum(w)
     raise ValueError(name)
 
@@ -193,7 +212,7 @@ def check_cv(case, ctx):
     vars_before = sorted(vars(est))
     deep_before = deep_state(est)
     d_arg, w_arg = pack(data), None if weights is None else pack(weights)
-    kw = dict(cv=cv, scoring=scoring)
+    kw = dict(cv=cv, scoring=scoring_object(scoring))
     serial = np.asarray(quiet(vd.cross_val_score, est, (e, n), d_arg, weights=w_arg, **kw))
     ctx.check(serial.dtype.kind in "fi", "cross_val_score (not asked for delayed results) returned %s objects instead of numbers", type(np.ravel(serial)[0]).__name__ if serial.size else "no")
     ctx.check(serial.shape == (len(splits),), "cross_val_score returned %s scores for %d splits", serial.shape, len(splits))
